@@ -46,6 +46,7 @@ bool build_check(const std::string& prop, const std::string& tier, CheckSpec& s,
         s.rule = "case = one delivery of a marshalled object through the simulated store: (object kind, form, validating?, slot count, signature support, fault token(s) incl. target element and malformation kind, outcome); distinct by that tuple; non-trivial iff the delivered bytes differ from the bytes written";
         s.batches.push_back(mk("wkd", 80, {"A/bmi2-adx", "B/portable64"}, "single", {{"hopenum", 1}, {"stride", q ? 2 : 1}}, "enumeration: every embedded element x every invalid-encoding kind, truncation lengths (every length in thorough, every 5th in quick), extensions, byte flips, junk buffers; 5 object kinds x 2 forms x validating/not x 4 shapes"));
         s.batches.push_back(mk("wkd", 90, {"A/bmi2-adx", "B/portable64", "C/portable32"}, "single", {{"hopsizes", 1}}, "every slot count 0..89 once: parameters and keys with that many entries through the store in both forms"));
+        s.batches.push_back(mk("wkd", q ? 1 : 4, {"A/bmi2-adx"}, "single", {{"hopsizes", 2}}, "objects past 2^16 marshalled bytes and 2^8 / 2^10 entries: 700 slots (quick), 257, 1300, 1024 (thorough)"));
         s.batches.push_back(mk("wkd", q ? 300 : 12000, FAST, "single", {{"focus", 15}}, "histories with marshalling hops and restarts in between the scheme operations"));
         s.batches.push_back(mk("wkd", q ? 32 : 2000, FAST, "single", {{"focus", 15}, {"wide", 1}, {"maxops", 9}}, "wide systems: parameters and keys with 12..80 slots through the store (length recovery from long buffers, free-slot arrays of dozens of entries)"));
         s.batches.push_back(mk("lq", 8, {"A/bmi2-adx", "B/portable64"}, "single", {{"hopenum", 1}}, "LQ-IBE objects: every embedded element x every invalid-encoding kind, both forms, validating and not"));
